@@ -70,13 +70,39 @@ class Repo:
                 tree = ast.parse(src, filename=rel)
             except SyntaxError as exc:  # the build would fail as well
                 raise AnalysisError(f"cannot parse {rel}: {exc}") from exc
-            # locals renamed by a maintainer are renamed back to the reference names (alpha-equivalent program; sa/canon.py)
-            from . import canon
-            if os.environ.get("VERIF_NO_CANON") != "1":
-                applied = canon.canonicalise(dotted, tree, self._ref)
+            tree._verif_is_pkg = p.name == "__init__.py"
+            self.modules[dotted] = Module(dotted, p, rel, src, tree)
+        # locals renamed by a maintainer are renamed back to the reference names (alpha-equivalent program; sa/canon.py)
+        from . import canon
+        if os.environ.get("VERIF_NO_CANON") != "1":
+            trees = [m_.tree for m_ in self.modules.values()]
+            for dotted, m_ in self.modules.items():
+                refmod = self._ref.get(dotted, {})
+                if refmod:
+                    pp1 = canon.align_private_params(m_.tree, refmod.get("<params>", {}), trees)
+                    pp2 = canon.align_private_params(m_.tree, refmod.get("<params>", {}), trees)   # a renaming may be followed by restoring the order
+                    if pp1 or pp2:
+                        m_.tree._verif_params = dict(pp1, **{k + " (2)": v for k, v in pp2.items()})
+            for dotted, m_ in self.modules.items():
+                applied = canon.canonicalise(dotted, m_.tree, self._ref)
                 if applied:
                     self.renames[dotted] = applied
-            self.modules[dotted] = Module(dotted, p, rel, src, tree)
+        # calls by keyword to functions of the package are re-written positionally (second pass: needs every module's signatures)
+        if os.environ.get("VERIF_NO_CANON") != "1":
+            from . import canon as _c
+            sigs: Dict[str, List[str]] = {}
+            dup = set()
+            for m_ in self.modules.values():
+                for n_ in m_.tree.body:
+                    if isinstance(n_, ast.FunctionDef):
+                        if n_.name in sigs:
+                            dup.add(n_.name)
+                        sigs[n_.name] = [a.arg for a in n_.args.args]
+            for d_ in dup:
+                sigs.pop(d_, None)
+            keep = {kc for mod_ in self._ref.values() if isinstance(mod_, dict) for kc in mod_.get("<kwcalls>", [])}
+            for m_ in self.modules.values():
+                _c.positional_calls(m_.tree, sigs, keep)
 
     def mod(self, dotted: str) -> Module:
         if dotted not in self.modules:
